@@ -9,9 +9,9 @@ extern "C" {
 typedef long double LD;
 static double const EPS = 2.220446049250313e-16;
 
-enum { L_MF, L_MF_BREAKPOINT, L_MF_DEGENERATE, L_MF_SMOOTH, L_MF_LINEAR, L_OPR, L_OPR_BOUNDARY, L_INFER, L_INFER_2x2, L_INFER_NONE_ACTIVE, L_INFER_ZERO_JOINT, L_OPR_EQU, L_OPR_CAP_B, L_N_GE_5, L_ACTIVE_GE_3 };
+enum { L_MF, L_MF_BREAKPOINT, L_MF_DEGENERATE, L_MF_SMOOTH, L_MF_LINEAR, L_OPR, L_OPR_BOUNDARY, L_INFER, L_INFER_2x2, L_INFER_NONE_ACTIVE, L_INFER_ZERO_JOINT, L_OPR_EQU, L_OPR_CAP_B, L_N_GE_5, L_ACTIVE_GE_3, L_MF_EXTREME_SCALE };
 static char const *const labels[] = {"membership_function", "x_within_2ulp_of_breakpoint", "degenerate_shoulder", "smooth_family", "piecewise_linear_family", "operators", "operator_boundary_argument",
-                                     "inference_step", "ge_2_active_sets_on_both_inputs", "no_active_set", "all_joint_memberships_zero", "operator_equ", "operator_cap_bounded", "rule_order_ge_5", "ge_3_active_sets_on_an_input", nullptr};
+                                     "inference_step", "ge_2_active_sets_on_both_inputs", "no_active_set", "all_joint_memberships_zero", "operator_equ", "operator_cap_bounded", "rule_order_ge_5", "ge_3_active_sets_on_an_input", "mf_scaled_beyond_2^+-900", nullptr};
 static char const *const metrics[] = {"max_mf_error_over_tol", "max_inference_error_over_tol", "max_active_sets", nullptr};
 static uint8_t const dict[] = {0, 1, 2, 3, 7, 8};
 static vp_info const info = {"C13", "fuzzy", "", labels, metrics, 400, dict, sizeof(dict)};
@@ -209,6 +209,62 @@ static void case_mf(Tape &t, Ctx &cx)
     {
         snprintf(sig, sizeof(sig), "mf_%s:pair_not_complementary", nm[type]);
         VP_CHECK(cx, std::fabs(y + y2 - 1) <= 4 * EPS, sig, "complementary pair at x=%.17g sums to %.17g", x, y + y2);
+    }
+    // the shapes depend on ratios only: scaling x and the parameters by a power of two (slopes by its inverse) is exact
+    // and must not change the value - also far out in the exponent range, where squares / sums of parameters over- or underflow
+    if (!any_value_ok)
+    {
+        int k;
+        switch (t.u8() % 4)
+        {
+        case 0: k = 400 + int(t.u16() % 600); break;
+        case 1: k = -(400 + int(t.u16() % 600)); break;
+        case 2: k = 5000 + int(t.u8() % 3); break; /* resolved below: the largest magnitude lands in one of the top three binades */
+        default: k = int(t.u8() % 81) - 40; break;
+        }
+        double q[4] = {p[0], p[1], p[2], p[3]};
+        double maxmag = std::fabs(x);
+        for (unsigned i = 0; i < mf_npar(type); ++i) { maxmag = std::max(maxmag, std::fabs(p[i])); }
+        int ex;
+        std::frexp(maxmag, &ex);
+        if (k >= 5000) { k = 1024 - ex - (k - 5000); }
+        if (k + ex > 1024) { k = 1024 - ex; }
+        {
+            // differences of two inputs must stay representable (the shapes are functions of such differences); sums need not
+            double lo = x, hi = x;
+            auto loc = [&](double v) { lo = std::min(lo, v); hi = std::max(hi, v); };
+            switch (type)
+            {
+            case A_MF_GAUSS: case A_MF_SIG: loc(p[1]); break;
+            case A_MF_GAUSS2: case A_MF_DSIG: case A_MF_PSIG: loc(p[1]); loc(p[3]); break;
+            case A_MF_GBELL: loc(p[2]); break;
+            default: for (unsigned i = 0; i < mf_npar(type); ++i) { loc(p[i]); } break;
+            }
+            int es;
+            std::frexp(hi - lo, &es);
+            if (hi > lo && k + es > 1023) { k = 1023 - es; }
+        }
+        auto sc = [&](double v) { return std::ldexp(v, k); };
+        auto isc = [&](double v) { return std::ldexp(v, -k); };
+        switch (type)
+        {
+        case A_MF_GAUSS: q[0] = sc(p[0]); q[1] = sc(p[1]); break;
+        case A_MF_GAUSS2: q[0] = sc(p[0]); q[1] = sc(p[1]); q[2] = sc(p[2]); q[3] = sc(p[3]); break;
+        case A_MF_GBELL: q[0] = sc(p[0]); q[2] = sc(p[2]); break;
+        case A_MF_SIG: q[0] = isc(p[0]); q[1] = sc(p[1]); break;
+        case A_MF_DSIG: case A_MF_PSIG: q[0] = isc(p[0]); q[1] = sc(p[1]); q[2] = isc(p[2]); q[3] = sc(p[3]); break;
+        default: for (unsigned i = 0; i < mf_npar(type); ++i) { q[i] = sc(p[i]); } break;
+        }
+        double xs = sc(x);
+        bool exact_scaling = std::ldexp(xs, -k) == x;
+        for (unsigned i = 0; i < mf_npar(type); ++i) { if (std::fabs(q[i]) < 2.3e-308 && q[i] != 0) { exact_scaling = false; } }
+        if (exact_scaling && (std::fabs(xs) >= 2.3e-308 || xs == 0))
+        {
+            double ys = a_mf(type, xs, q);
+            if (k > 900 || k < -900) { cx.label(L_MF_EXTREME_SCALE); }
+            snprintf(sig, sizeof(sig), "mf_%s:not_scale_invariant", nm[type]);
+            if (!(fabsl((LD)ys - ref) <= 2 * tol)) { cx.fail(sig, "a_mf_%s with x and parameters scaled by 2^%d = %.17g (x=%.17g; %.17g, %.17g, %.17g, %.17g), unscaled shape value %.17Lg", nm[type], k, ys, xs, q[0], q[1], q[2], q[3], ref); }
+        }
     }
     // dispatcher returns the same value, bit for bit
     double yd = a_mf(type, x, p);
